@@ -236,7 +236,8 @@ func replay[C any](t *testing.T, id, check string, run func(C) Outcome) bool {
 	if err := json.Unmarshal(b, &rf); err != nil {
 		t.Fatalf("replay: %v", err)
 	}
-	if rf.Check != check || (rf.Property != "" && rf.Property != id) {
+	// VERIF_CHECK_ALIAS: the driver runs one test function as several units (e.g. with and without -race)
+	if (rf.Check != check && rf.Check != os.Getenv("VERIF_CHECK_ALIAS")) || (rf.Property != "" && rf.Property != id) {
 		t.Skipf("replay file is for %s/%s", rf.Property, rf.Check)
 		return true
 	}
